@@ -79,6 +79,7 @@ var Metas = map[string]*Meta{
 		Components: map[string]any{"real": append([]string{"biostuff newick traversal, trie.ForEach, sequtil.CanonicalSubsequences"}, realCommon...), "simulated_environment": []string{"the consumer (stop position, style)", "io.Reader with delivery plan and fault", "storage configurations on the real file system", "map iteration order via the guarded hook"}, "stubbed": []string{}},
 		Runs:       map[string]int{"quick": 400000, "thorough": 20000000},
 		Run:        RunC18,
+		Setup:      SetupC18,
 	},
 	"C07": {
 		Level: "fault_enumeration",
